@@ -170,6 +170,15 @@ def run(ctx):
             for key in out.get("gates", []):
                 seen[key] = seen.get(key, 0) + 1
                 delay.append(dict(sc, id="delay/%s/%s#%d" % (sc["id"], key, seen[key]), mode="delay", delay_key=key, delay_nth=seen[key]))
+    # writers held INSIDE their critical section (the transport's write gate lies between c.send / s.send and the
+    # write itself): with a correct mutex every other writer queues up behind it, whatever the machine load
+    for cap in (0, 2):
+        ids = ["r1", "r2", "r3"]
+        base = dict(mode="delay", cap=cap, frag=False, seed=ctx.seed * 31 + cap, runs=[dict(id=x, beh="ok", echo=1 + k) for k, x in enumerate(ids)],
+                    workload=dict(phases=[ids], close="end"))
+        for key in ("t.c2s.write.pre", "t.s2c.write.pre"):
+            for nth in (1, 2, 3, 4):
+                delay.append(dict(base, id="delay/incs/cap%d/%s#%d" % (cap, key, nth), delay_key=key, delay_nth=nth))
     res = A.run_driver(ctx, delay, label="c05delay")
     for sc, rr in zip(delay, res):
         out = judge(ctx, sc, rr, "delay " + sc["delay_key"])
@@ -210,6 +219,26 @@ def run(ctx):
                 sessions.setdefault((sc["cap"], (), ()), []).append((sc["id"], out["events"]))
         ctx.extra["yield_points"] = npoints
         ctx.extra["yield_delay_scenarios"] = len(ydelay)
+    # run IDs used again, back to back: after a success, after an input the step's schema rejects, after an undeclared
+    # output and after a panic - the second call must get what the same step returns in-process (no state keyed by
+    # run ID may survive the first).  The model has one call per run ID, so these sessions are judged by the payload
+    # comparison only.
+    reuse = []
+    for i, (first, kind) in enumerate([(dict(echo=1), "ok"), (dict(echo=10), "rejected"), (dict(echo=16), "rejected"),
+                                       (dict(beh="err"), "undeclared"), (dict(beh="panic"), "panic")]):
+        for cap in (0, 2):
+            runs = [dict(dict(id="r1", beh="ok"), **first),
+                    dict(id="r1b", **{"as": "r1"}, beh="ok", echo=2 + i),
+                    dict(id="r1c", **{"as": "r1"}, beh="ok", echo=11 + i),      # rejected input under the same run ID
+                    dict(id="r1d", **{"as": "r1"}, beh="ok", echo=3 + i),
+                    dict(id="r2", beh="ok", echo=4)]
+            reuse.append(dict(id="reuse/%s/cap%d" % (kind + str(i), cap), mode="free", cap=cap, frag=bool(cap), seed=ctx.seed * 13 + i,
+                              runs=runs, workload=dict(phases=[["r1"], ["r1b", "r2"], ["r1c"], ["r1d"]], close="end")))
+    for sc, rr in zip(reuse, A.run_driver(ctx, reuse, label="c05reuse")):
+        out = judge(ctx, sc, rr, "run ID reuse")
+        if out is not None:
+            ctx.count(sc["id"])
+    ctx.extra["run_id_reuse_sessions"] = len(reuse)
     # the legacy v1 framing (no run IDs: strictly serial): the real client against a minimal v1 server built around
     # the real CallableSchema; payload fidelity as above; a rejected input ends the stream and must come back as an error
     v1 = []
